@@ -746,6 +746,15 @@ pub fn gen_world(seed: u64, p: &Profile) -> World {
             } else { format!("/{}/u{:03}", seg, k) };
             rules.push(Rule { spec: RuleSpec::Net(NetRule { exc, pat, opts: opts.clone(), tag: None }), perm: 0 });
         }
+        // sometimes a companion group in the same bucket: other options (another fusable group), so that
+        // one bucket holds several groups of different sizes
+        if wild && r.chance(60) {
+            let opts2: Vec<String> = vec![pick_s(&mut r, &["font", "media", "xhr", "1p"])];
+            let size2 = *r.pick(&[2usize, 5, 31, 33, 40, 63]);
+            for k in 0..size2 {
+                rules.push(Rule { spec: RuleSpec::Net(NetRule { exc, pat: format!("/{}/*slot{}-*.png", seg, k), opts: opts2.clone(), tag: None }), perm: 0 });
+            }
+        }
     }
     // very rarely a long list (parallel / chunked code paths of list handling)
     let huge = r.chance(5) && r.chance(25);
